@@ -42,14 +42,16 @@ WORLD_STUBS = ["os/exec", "os (files, pipes, env, exit)", "net", "bufio", "io.Co
 # ------------------------------------------------------------------------------------------------ C01 / C05
 C01_BOUND = "first stdout line = any byte string with <= 8 '|'-separated fields of unbounded length; process behaviour in {line at symbolic instant, EOF while alive, silent, dies before output}; AllowedProtocols in {nil,[netrpc],[grpc],[netrpc,grpc]}; TLSConfig nil/set; GRPCBrokerMultiplex on/off; one offered version (symbolic, >= 0); RunnerFunc launch"
 prop("C01", ["prims.go", "c01.go"],
-     [run("start", "harnessC01", ["accepted", "rejected"], quick={"bound": C01_BOUND, "witness": 24}, native="start")],
+     [run("start", "harnessC01", ["accepted", "rejected"], quick={"bound": C01_BOUND, "witness": 24, "params": {"full": 0}}, native="start"),
+      run("start-full", "harnessC01", ["accepted", "rejected", "two-versions"], quick={"skip": True},
+          thorough={"params": {"full": 1}, "max_wall_s": 1500, "bound": C01_BOUND + "; additionally a second offered version through VersionedPlugins (symbolic, distinct) and a runner address translator that is the identity, fails, or rewrites the address"})],
      [PROC, BUFIO, CTX, STR, NET, CRYPTO, "StartTimeout = 60 s on the symbolic clock"],
      ["bufio.Scanner", "bufio.Reader", "context", "os.Environ/MkdirTemp/RemoveAll", "net.Resolve*", "encoding/base64", "crypto/x509", "hclog.Logger (no-op)"],
      "a second stdout line; more than 8 fields (the code reads indices <= 6); what the real resolver does with particular addresses; launch by exec.Cmd",
      text="Bounded symbolic model checking of the whole real Client.Start (option checks, environment construction, deferred kill/re-panic, its goroutines, the select, the parser, checkProtoVersion, loadServerCert) against a reference predicate over the fields of the first stdout line: for every line (all byte strings, <= 8 fields) and every configuration in the bound the solver shows Start errs or returns a usable address, succeeds only for well-formed lines, reports exactly the line's protocol/version, never panics and returns within the start timeout on a symbolic clock.",
      note="Bound: " + C01_BOUND + ". Contracts: resolver, base64 and x509 outcomes are uninterpreted predicates; bufio/context/process are models. " + ENGINE)
 prop("C05", ["prims.go", "c01.go"],
-     [run("start", "harnessC01", ["rejected"], native="start", quick={"witness": 24, "bound": "as C01: every rejection cause the solver finds feasible (each field invalid in turn, timeout, EOF while alive, exit before output) x the configuration space of C01"}),
+     [run("start", "harnessC01", ["rejected"], native="start", quick={"witness": 24, "params": {"full": 0}, "bound": "as C01: every rejection cause the solver finds feasible (each field invalid in turn, timeout, EOF while alive, exit before output) x the configuration space of C01"}),
       run("kill-after", "harnessC05killAfter", ["start-failed", "start-succeeded", "kill-later"], files=WORLD,
           quick={"bound": "scripted plugins announcing five kinds of line (multiplexing unsupported, 4-field, net/rpc, gRPC, garbage) x allowed list x launch {RunnerFunc, exec.Cmd}; after a failed Start, Kill at once or three seconds later: returns promptly, process dead, socket directory removed"})],
      [PROC, BUFIO, CTX, STR, NET, CRYPTO], ["as C01"],
